@@ -293,6 +293,57 @@ def run(ctx):
                                  f"apply_generated_unitary('{algo}') answered for a {label}", {"algo": algo, "operands": label})
                 if wsnap(wv) != before:
                     ctx.disagree("refuse:operand-changed:generated-unitary", "operand changed", {"algo": algo, "operands": label})
+    # ---- number-breaking single-term generators T + T^dagger (closed-form route) on number-conserving wavefunctions:
+    #      the evolution leaves the electron number of the state, so every entry point must refuse, in place or not,
+    #      on single-sector, multi-sector and spin-complete (all Sz of one N) wavefunctions ---------------------------
+    for case in range(24 if quick else 240):
+        norb = rng.choice([2, 3, 3])
+        nso = 2 * norb
+        ncre, nann = rng.choice([(2, 0), (2, 0), (1, 0), (3, 1), (2, 1), (0, 2)])
+        if ncre + nann > nso:
+            continue
+        modes = rng.sample(range(nso), ncre + nann)
+        T = tuple((m, 1) for m in modes[:ncre]) + tuple((m, 0) for m in modes[ncre:])
+        Td = tuple((m, 1 - d_) for m, d_ in reversed(T))
+        c = complex(rng.choice([1, 2, -1]), rng.choice([0, 1, -2])) / 2
+        gen = _FO(T, c) + _FO(Td, c.conjugate())
+        nel = rng.randint(1, nso - 1)
+        wkind = rng.choice(["spin-complete", "spin-complete", "single", "multi"])
+        try:
+            if wkind == "spin-complete":
+                wv = fqe.get_number_conserving_wavefunction(nel, norb)
+            elif wkind == "single":
+                na = rng.randint(max(0, nel - norb), min(norb, nel))
+                wv = fqe.Wavefunction([[nel, 2 * na - nel, norb]])
+            else:
+                na = rng.randint(max(0, nel - norb), min(norb, nel))
+                secs = [[nel, 2 * na - nel, norb]]
+                n2 = nel + (ncre - nann)
+                if 0 <= n2 <= nso:
+                    na2 = rng.randint(max(0, n2 - norb), min(norb, n2))
+                    secs.append([n2, 2 * na2 - n2, norb])
+                wv = fqe.Wavefunction(secs)
+        except Exception:
+            continue
+        U.random_fill(wv, rng, zero_p=0.0)
+        desc = {"norb": norb, "T": [list(x) for x in T], "c": [c.real, c.imag], "wfn": wkind,
+                "sectors": [list(map(int, k)) for k in sorted(wv.sectors())]}
+        for api in ("time_evolve", "time_evolve-inplace", "fqe.time_evolve", "apply"):
+            tgt = copy.deepcopy(wv)
+            before = wsnap(tgt)
+            if api == "apply":
+                oc, val = outcome(lambda: tgt.apply(gen))
+            elif api == "fqe.time_evolve":
+                oc, val = outcome(lambda: fqe.time_evolve(tgt, 0.3, gen))
+            else:
+                oc, val = outcome(lambda: tgt.time_evolve(0.3, gen, inplace=api.endswith("inplace")))
+            ctx.case(("number-breaking-individual", case, api))
+            ctx.count(f"number-breaking-individual:{wkind}:{'answered' if oc == 'ok' else 'refused'}")
+            if oc == "ok":
+                ctx.disagree(f"refuse:number-breaking-generator-on-number-conserving-wfn:{api.split('-')[0]}",
+                             f"{api} answered a number-breaking generator T + T^dagger on a number-conserving wavefunction ({wkind})", desc)
+            elif wsnap(tgt) != before:
+                ctx.disagree("refuse:operand-changed:individual-generator", f"operand changed by the refused {api}", desc)
     # ---- coefficient data of the wrong shape: every array whose shape is not exactly (lena, lenb) is refused - one
     #      extent wrong, both wrong, transposed, extra axes, one axis - and a refusal leaves *every* sector untouched --
     for case in range(10 if quick else 80):
